@@ -228,9 +228,22 @@ func VerifC20_PoolingAndRotation() {
 		vn.Assert("C20/verification-stays-on-after-rotation", !ga.InsecureSkipVerify)
 		again, err := pool.LoadTLSConfig(a.cfg)
 		vn.Assert("C20/clients-built-later-get-the-same-object", vn.And(err == nil, again == ga))
-		// re-watching the same file supersedes the old watcher
-		_, err = pool.caWatcher.WatchFile(NewFileReader(a.file), a.interval, func([]byte) {})
-		vn.Assert("C20/rewatch-succeeds", err == nil)
+		// watching the same file again supersedes the old watcher -- whether the new watch polls
+		// (same interval), reads once (no interval: e.g. a second TLS configuration naming the same
+		// CA file without a refresh interval) or fails because the file cannot be read just now
+		switch vn.Choice("rewatch-kind", 3) {
+		case 0:
+			_, err = pool.caWatcher.WatchFile(NewFileReader(a.file), a.interval, func([]byte) {})
+			vn.Assert("C20/rewatch-succeeds", err == nil)
+		case 1:
+			_, err = pool.caWatcher.WatchFile(NewFileReader(a.file), 0, func([]byte) {})
+			vn.Assert("C20/rewatch-succeeds", err == nil)
+			vn.Cover("C20/rewatch-without-interval", true)
+		default:
+			vn.SetFile(a.file, newPEM, false)
+			_, err = pool.caWatcher.WatchFile(NewFileReader(a.file), a.interval, func([]byte) {})
+			vn.Assert("C20/rewatch-of-unreadable-file-is-an-error", err != nil)
+		}
 		vn.Assert("C20/superseded-watcher-stops", w.ctx.Err() != nil)
 	}
 }
